@@ -266,6 +266,12 @@ func genSignCases(r *RNG, thorough bool) []string {
 			}
 		}
 	}
+	// byte fields next to the text a signer might display for them: the bytes themselves, their base64, their hex, and a
+	// printable string — four different messages each
+	for _, bs := range []string{"\xff\xfe", "\x00\x01\x02", "AAEC", "//4=", "fffe", "000102", "hello"} {
+		one(joinSp("aol.AddRecord", toks("t"), toks(bs), toks("v"), toks(B), toks(A), toks("")))
+		one(joinSp("aol.AddRecord", toks("t"), toks("k"), toks(bs), toks(B), toks(A), toks("")))
+	}
 	// long byte / text fields around the thresholds at which a signer implementation might shorten, digest or truncate what
 	// it displays — together with the digests and truncations themselves, so that "long value signed as its digest" shows
 	// up as a collision between two different messages
